@@ -610,7 +610,7 @@ PIN_F27 = [0, [LOWL([STR('jan', L_('X'))])]]
 def gen(tier, rng):
     # ---- fn 1: exhaustive key sequences over 3 keys (one of which raises, one crashes), capacities 0..3
     table = [[0, [0, 7]], [1, [0, 8]], [2, [1]], [3, [2]]]
-    maxlen = 6 if tier == 'quick' else 8
+    maxlen = 6 if tier == 'quick' else 7
     for cap in range(0, 4):
         for n in range(0, maxlen + 1):
             for ks in itertools.product(range(4 if n <= maxlen - 1 else 3), repeat=n):
@@ -645,21 +645,21 @@ def gen(tier, rng):
     if tier == 'quick':
         plan = [(1, full, 1), (2, full, 1), (3, core_pool, 1)]
     else:
-        plan = [(1, full, 1), (2, full, 1), (3, full, 1), (4, core_pool, 2)]
+        plan = [(1, full, 1), (2, full, 1), (3, full, 1), (4, core_pool, 7)]
     for n, pool, stride in plan:
         for j, h in enumerate(itertools.product(range(len(pool)), repeat=n)):
             if j % stride == 0:
                 yield ('history_exhaustive', 2, [2, [pool[i] for i in h]])
     # ---- fn 2: random histories
-    for i in range(1000 if tier == 'quick' else 20000):
+    for i in range(1000 if tier == 'quick' else 6000):
         cap = rng.choice([1, 2, 3, 4, 8, 0])
         yield ('history_random', 2, [cap, rand_history(rng, rng.choice([3, 6, 10, 20, 40]))])
 
 RULE = ('fn 1 (memoize): every key sequence up to the length bound over 4 keys (two returning, one raising a pybtex error, one raising a foreign exception) x capacities 0..3, plus random runs up to capacity 1024 with more distinct keys than the capacity; '
-        'fn 2 (API histories): pinned defect inputs, a history with 1100 fresh format.name$ calls at the shipped capacity, every history of length <= 2 over a menu of 13 calls (each also inside errors.capture(), plus set_strict_mode on/off; 28 in all) and of length 3 (thorough: also every second one of length 4) over the 22 of them that are not capture() variants of state-writing calls, cache capacity 2 (thorough: length 3 over all 28), and random histories up to length 40; every self-contained call is also re-run alone in a reset process state. '
+        'fn 2 (API histories): pinned defect inputs, a history with 1100 fresh format.name$ calls at the shipped capacity, every history of length <= 2 over a menu of 13 calls (each also inside errors.capture(), plus set_strict_mode on/off; 28 in all) and of length 3 (thorough: also every seventh one of length 4) over the 22 of them that are not capture() variants of state-writing calls, cache capacity 2 (thorough: length 3 over all 28), and random histories up to length 40; every self-contained call is also re-run alone in a reset process state. '
         'distinct = distinct (function, argument); non-trivial = more distinct keys than the capacity (fn 1) / at least two kinds of call (fn 2)')
 EXHAUSTIVE = {'quick': 'memoize: all key sequences of length <= 6 over 4 keys x capacities 0..3; API histories: all sequences of length <= 2 over the 28-call menu, all of length 3 over its 22-call core',
-              'thorough': 'memoize: all key sequences of length <= 8 over 4 keys x capacities 0..3; API histories: all sequences of length <= 3 over the 28-call menu, every second one of length 4 over its 22-call core'}
+              'thorough': 'memoize: all key sequences of length <= 7 over 4 keys x capacities 0..3; API histories: all sequences of length <= 3 over the 28-call menu, every seventh one of length 4 over its 22-call core'}
 TRUSTED_BASE = ['modelled (not verified) code: pybtex/utils.py memoize; pybtex/errors.py; pybtex/bibtex/builtins.py _split_names/_format_name/format.name$; pybtex/database/input/bibtex.py month_names, LowLevelParser command level, Parser; pybtex/database/input/__init__.py BaseParser; BibliographyData.add_entry',
                 'the lexical level of .bib files is not modelled: the harness renders tokenised commands to text (harness/props/c18.py render)',
                 'format_bibtex_name (C11) enters the model as a table measured from the real function for the pairs each history reaches']
